@@ -85,15 +85,17 @@ fdprintf(const char *fmt, ...)
 	tp = vsnprintf(
 		fd_aux.buf + fd_aux.bi, sizeof(fd_aux.buf) - fd_aux.bi,
 		fmt, vap);
+	va_end(vap);
 	if (UNLIKELY((size_t)tp + fd_aux.bi >= sizeof(fd_aux.buf))) {
 		/* yay, finally some write()ing */
 		fdflush();
-		/* ... try the formatting again */
+		/* ... try the formatting again, VAP is spent by now */
+		va_start(vap, fmt);
 		tp = vsnprintf(
 			fd_aux.buf + fd_aux.bi, sizeof(fd_aux.buf) - fd_aux.bi,
 			fmt, vap);
+		va_end(vap);
 	}
-	va_end(vap);
 
 	/* reassign and out */
 	if (UNLIKELY(tp < 0 || sizeof(fd_aux.buf) < (size_t)tp + fd_aux.bi)) {
